@@ -9,20 +9,10 @@ TRUST = ("soroban native test host semantics (soroban-env-host 25.0.1: rollback,
          "temporary-entry expiry with min_temp_entry_ttl=1); the Rust reference model/monitor of the check; "
          "bounded universe, alphabet and depth as stated in the evidence file")
 
-# id -> (category, technique, text, design_ref, extra trust note)
-CHECKS = {
- "C07": ("model_checking",
-         "explicit-state BFS over operation histories of the real contracts, lockstep monitor",
-         "Exhaustive level-BFS over all histories (quick depth 7, thorough depth 10) of offer/cancel/accept/renounce/"
-         "holder-only-call/advance with every single signer or none, 7-9 live_until positions relative to the current "
-         "ledger, on the real ownable and access-control example contracts under enforcing authorization; monitor "
-         "of the latest offer's logical lifetime decides every accept. Adequate because the handshake state space "
-         "(holder x pending x ledger offset) is tiny and fully covered within the bound.",
-         "DESIGN.md §3 C07", ""),
-}
-
-NOT_YET = {
-}
+# tools/checks.json: id -> {category, technique, text, design_ref, note}
+CHECKS = {k: (v["category"], v["technique"], v["text"], v["design_ref"], v.get("note", ""))
+          for k, v in json.load(open(os.path.join(HERE, "tools", "checks.json"))).items()}
+NOT_YET = {}
 
 def main():
     props = [json.loads(l) for l in open(os.path.join(HERE, "properties.jsonl"))]
